@@ -16,10 +16,10 @@ const asVariant = "fix"
 
 type asPlan struct {
 	prop     string
-	monitors []string // monitor modules under specs/asmon that decide this property
-	mc       []string // MC configurations (exhaustive)
-	mcThor   []string // additional MC configurations in the thorough tier
-	gen      []string // generator configurations (simulated behaviours)
+	monitors []string    // monitor modules under specs/asmon that decide this property
+	mc       []string    // MC configurations (exhaustive)
+	mcThor   []string    // additional MC configurations in the thorough tier
+	gen      []string    // generator configurations (simulated behaviours)
 	ops      [][2]string // operations the random scenarios draw from
 	vias     []string    // reference provenances the random scenarios draw from (nil: ActorOf references only)
 	rule     string
